@@ -85,6 +85,8 @@ fn run_drop_panic<const N: usize>(k: usize, j: usize, out: &mut Sink) {
         }
     }
     out.oracle("C15", ok, &case, &format!("constructed {}: {}", constructed, evs.join(" ")));
+    // the same run against the model (`arrayRunDropPanic`: events as without the unwinding destructor)
+    out.case(&format!("guard {} {} errdrop {}", N, k, j), &format!("unwound ({})", evs.join(" ")));
 }
 
 fn run<const N: usize>(fail_at: Option<usize>, mode: u8, out: &mut Sink) {
